@@ -164,6 +164,16 @@ func (s *faultServer) fail(c net.Conn, br *bufio.Reader, a int, st upStep, got i
 			c.Close()
 		}()
 		return true
+	case "307-keep", "308-keep":
+		// a redirect that obliges a client which follows it to repeat the POST with its body; whatever arrives
+		// at the new location is the next attempt of the script
+		line := map[string]string{"307-keep": "307 Temporary Redirect", "308-keep": "308 Permanent Redirect"}[st.Kind]
+		fmt.Fprintf(c, "HTTP/1.1 %s\r\nLocation: /agent/response-moved-%d\r\nContent-Length: 0\r\n\r\n", line, a)
+		go func() {
+			io.Copy(io.Discard, br)
+			c.Close()
+		}()
+		return true
 	case "5xx-close":
 		c.Write([]byte("HTTP/1.1 500 Internal Server Error\r\nConnection: close\r\nContent-Length: 5\r\n\r\nerror"))
 		c.Close()
@@ -380,9 +390,22 @@ func runForwarder(url string, h handlerScript, id string, gate func(k int)) (clo
 	select {
 	case err := <-done:
 		return err == nil, false, err
-	case <-time.After(20*time.Second + time.Duration(len(h.Pieces))*h.Pause):
+	case <-time.After(blockedWait() + time.Duration(len(h.Pieces))*h.Pause):
+		atomic.AddInt32(&blockedSeen, 1)
 		return false, true, nil
 	}
+}
+
+// blockedWait is how long a Close() that does not return is waited for: 20 s, and 3 s once three calls have been
+// seen blocked (a tree on which Close blocks would otherwise turn the run into hours of waiting; the verdict - the
+// handler was left blocked - is the same).
+var blockedSeen int32
+
+func blockedWait() time.Duration {
+	if atomic.LoadInt32(&blockedSeen) >= 3 {
+		return 3 * time.Second
+	}
+	return 20 * time.Second
 }
 
 // pauseClasses are the quiet periods of the slow scenarios: beyond 5 s in every run, beyond 30 s and 60 s in the
